@@ -60,6 +60,9 @@ func (g *c07gen) date() *TNode {
 	if g.r.Chance(1, 5) {
 		pool = c07EdgeDates
 	}
+	if g.r.Chance(1, 12) {
+		pool = c07TieDates // exact ties of Years(): see c07e.go
+	}
 	if g.wild && g.r.Chance(1, 2) {
 		pool = c07WildDates
 	}
@@ -602,6 +605,7 @@ func c07document(r *Rand) string {
 func init() {
 	runners["C07"] = func(c *Ctx) {
 		c.Rule = "distinct = (case kind: copy / permuted / independent pair / single edit / all permutations of one sibling list / copy / mutation after copy, set of equality rules present in the tree, outcome bits)"
+		c.Compare = c07tieCompare(c)
 		r := c.R
 		tame := &c07gen{r: r, wild: false}
 		wild := &c07gen{r: r, wild: true}
@@ -615,6 +619,7 @@ func init() {
 			zt := T("BIRT", "", "", T("DATE", z, ""))
 			c07laws(c, zt, zt.Clone(), "copy", "eq")
 		}
+		c07tiePinned(c)
 		uid := T("INDI0", "", "", T("_UID", "notauuid", ""))
 		c07laws(c, uid, uid.Clone(), "copy", "eq")
 
